@@ -393,11 +393,11 @@ def stepQ (ff : UInt64 → Option Bytes) (d : DV) (q : Q) (obs : String) : Strin
     if direct.startsWith "batch-failed:panic" then
       -- the interpreter crashed on `v | q`
       let mImpl := sRes (q.eval Mode.real ff (wrap d))
-      let k := sRes (q.eval { impl := false, kObjKey := true } ff (wrap d))
       let div := if mImpl == "panic" then "" else s!" ;DIVERGE model={mImpl}"
       -- the recorded crash: TypeOf panics on the error value that JQValueToString returned for a
-      -- non-string JQValue object key (error.go:59)
-      if direct == "batch-failed:panic:invalid-type-FuncTypeNameError" && k == "panic" then s!"KNOWN object-key-jqvalue interpreter panic{div}"
+      -- non-string JQValue object key (error.go:59). It is the model's only source of a panic inside
+      -- `eval` (objectKey on a decode value / gojqx.Array key).
+      if direct == "batch-failed:panic:invalid-type-FuncTypeNameError" && mImpl == "panic" then s!"KNOWN object-key-jqvalue interpreter panic"
       else s!"PROPFAIL interpreter panic on v|q ({direct}){div}"
     else if direct.startsWith "batch-failed" || plain.startsWith "batch-failed" then
       s!"BADOP harness could not evaluate: {direct} || {plain}"
